@@ -1,5 +1,6 @@
 //! mtmc – bounded exhaustive exploration of momtrop against the exact reference model.
 //! usage: mtmc <Cxx> --tier quick|thorough [--replay <file>]
+#![allow(dead_code)]
 mod c01;
 mod c06;
 mod c14;
